@@ -12,7 +12,7 @@ use crate::exch_run::{replay_exchange, run_exchanges};
 use crate::gen::*;
 use crate::refmodel::framing::{decide, Framing};
 
-pub const RULE: &str = "full product: request version {1.0,1.1} x request Connection {absent, close, keep-alive, keep-alive+close as two fields} x request kind {GET, HEAD, CONNECT (HTTP/1.1), POST with Content-Length, POST with Expect, GET carrying an Expect header, GET obtained by following a 302 of a POST (sent after the body, or instead of the 100)} x Expect outcome {100 received / late 100 after give-up, (GET: a stray 100 ahead of the final response), silent server + give-up, refused bare, refused with fields, refused with a first field line of 280 bytes} x response version {1.0,1.1} x status {200,204,205,300,304,404,302 and 399 with Location; 101 and 103 as bare answers to Expect} x response framing {none, Content-Length: 0, Content-Length: 3, chunked} x response Connection {absent, close, keep-alive, keep-alive+close, close preceded by an empty-valued field}; every cell explored through the real flow under all mixtures of whole-message and 1-byte arrivals (quick: whole-message arrivals + give-up at every point), verdict read in the Redirect state and in Cleanup; part b: every prefix, cut after the complete Location line, of 3xx heads with Connection / framing fields before and after the Location line (3 methods x 3 statuses x 7 x 4 field sets x every cut): whenever the library accepts such a prefix as a complete response (known finding KF1 of C05) the exchange must end must-close; part c: every cell once more along the canonical schedule with a driver that judges nothing but the final verdict against the ground truth of the server script. distinct = distinct (cell, final observation) pairs";
+pub const RULE: &str = "full product: request version {1.0,1.1} x request Connection {absent, close, keep-alive, keep-alive+close as two fields} x request kind {GET, HEAD, CONNECT (HTTP/1.1), POST with Content-Length, POST with Expect, GET carrying an Expect header, GET obtained by following a 302 of a POST (sent after the body, or instead of the 100)} x Expect outcome {100 received / late 100 after give-up, (GET: a stray 100 ahead of the final response), silent server + give-up, refused bare, refused with fields, refused with a first field line of 280 bytes} x response version {1.0,1.1} x status {200,204,205,300,304,404,302 and 399 with Location; 101 and 103 as bare answers to Expect} x response framing {none, Content-Length: 0, Content-Length: 3, chunked} x response Connection {absent, close, keep-alive, keep-alive+close, close preceded by an empty-valued field}; every cell explored through the real flow under all mixtures of whole-message and 1-byte arrivals (quick: whole-message arrivals + give-up at every point), verdict read in the Redirect state and in Cleanup; part b: every prefix, cut after the complete Location line, of 3xx heads with Connection / framing fields before and after the Location line (3 methods x 3 statuses x 7 x 4 field sets x every cut): whenever the library accepts such a prefix as a complete response (known finding KF1 of C05) the exchange must end must-close; part c: every cell twice more along the canonical schedule - by a caller that reads every body to its end and by one that proceeds as soon as the library allows it (a close-delimited body is then never read) - with a driver that judges nothing but the final verdict against the ground truth of the server script. part d: every status 200..=599 x {Content-Length: 0, Content-Length: 3, chunked; Content-Length: 3 also with Connection: keep-alive / close} on an otherwise reusable GET exchange along the canonical schedule (the status is no close condition). distinct = distinct (cell, final observation) pairs";
 
 const LONG_WHY: &str = "the-upload-is-not-wanted-here-because-of-a-policy-that-takes-a-very-long-sentence-to-explain-and-then-some-more-words-to-get-beyond-two-hundred-and-fifty-six-bytes-in-a-single-header-field-line-which-is-entirely-legal-if-unusual-0123456789-0123456789-0123456789-0123456789";
 
@@ -246,7 +246,9 @@ fn lost_boundary_sweep(rep: &mut Report) {
 
 /// Part c: the verdict along the canonical schedule, judged against the ground truth of the server
 /// script only (no intermediate oracle): robust against deviations elsewhere in the exchange.
-fn canonical_verdict(cfg: &ExchCfg) -> Result<Option<String>, String> {
+/// `lazy`: the caller reads a body only while the library says it cannot proceed - a close-delimited body,
+/// which is proceedable from the start, is then left without a single read (the condition holds all the same).
+fn canonical_verdict(cfg: &ExchCfg, lazy: bool) -> Result<Option<String>, String> {
     use crate::driver::AnyFlow;
     let refusal_script = cfg.req.expects_100() && cfg.req.body_due() && cfg.server.first().map(|m| m.msg.status != 100 && m.gate == Gate::AfterHead).unwrap_or(false);
     let f = match &cfg.prep {
@@ -312,7 +314,7 @@ fn canonical_verdict(cfg: &ExchCfg) -> Result<Option<String>, String> {
                 body_state_close = b.body_mode() == ureq_proto::BodyMode::CloseDelimited;
                 let mut out = vec![0u8; 8192];
                 let mut spins = 0;
-                while !b.can_proceed() || (body_state_close && off < stream.len()) {
+                while !b.can_proceed() || (body_state_close && off < stream.len() && !lazy) {
                     spins += 1;
                     if spins > 50 {
                         return Err("body never completes".into());
@@ -347,10 +349,42 @@ fn canonical_verdict(cfg: &ExchCfg) -> Result<Option<String>, String> {
     };
     for (st, (must, reason)) in verdicts {
         if must != conds.must_close() || reason.is_some() != must || reason.map(|r| !conds.reason_ok(r)).unwrap_or(false) {
-            return Ok(Some(format!("{} state: must_close_connection() = {}, close_reason() = {:?}, but the conditions that actually hold in this exchange are {:?}", st, must, reason, conds)));
+            return Ok(Some(format!("{} state: must_close_connection() = {}, close_reason() = {:?}, but the conditions that actually hold in this exchange are {:?}{}", st, must, reason, conds, if lazy { " [caller that proceeds as soon as the library allows it]" } else { "" })));
         }
     }
     Ok(None)
+}
+
+/// Part d: the status code is no close condition. Every status 200..=599 on an otherwise reusable exchange
+/// (and once with the server announcing the close) along the canonical schedule.
+fn status_cells() -> Vec<Arc<ExchCfg>> {
+    let mut out = Vec::new();
+    for status in 200..=599u16 {
+        for fr in ["cl0", "cl3", "chunked"] {
+            for sconn in [&[][..], &["keep-alive"][..], &["close"][..]] {
+                if !sconn.is_empty() && fr != "cl3" {
+                    continue;
+                }
+                let rs = req("GET", "1.1", ReqFraming::Default, 0, false, false, false);
+                let mut extra: Vec<(&str, &str)> = Vec::new();
+                if (300..400).contains(&status) && status != 304 {
+                    extra.push(("Location", "/next"));
+                }
+                for c in sconn {
+                    extra.push(("Connection", c));
+                }
+                let body = match fr {
+                    "cl0" => BodySpec::Length(vec![]),
+                    "cl3" => BodySpec::Length(b"abc".to_vec()),
+                    _ => BodySpec::Chunked { chunks: vec![b"abc".to_vec()], ext: false, trailers: 0 },
+                };
+                let fm = final_msg("GET", "1.1", status, &extra, &body);
+                let cfg = ExchCfg::new("C10", rs.cfg.clone(), rs.body.clone(), server(fm, None, Gate::AfterBody), b"HTTP/1.1 200 OK\r\n\r\n".to_vec(), Menu::default_large()).expect("cfg");
+                out.push(Arc::new(cfg));
+            }
+        }
+    }
+    out
 }
 
 pub fn run(tier: Tier) -> Report {
@@ -358,31 +392,57 @@ pub fn run(tier: Tier) -> Report {
     // part c on every cell
     let canon: Vec<(usize, Result<Option<String>, String>)> = {
         use rayon::prelude::*;
-        cfgs.par_iter().enumerate().map(|(i, c)| (i, match crate::engine::guarded(|| canonical_verdict(c)) { Ok(r) => r, Err(p) => Ok(Some(format!("panic: {}", p))) })).collect()
+        cfgs.par_iter()
+            .enumerate()
+            .flat_map(|(i, _)| [false, true].into_par_iter().map(move |lazy| (i, lazy)))
+            .map(|(i, lazy)| (i, match crate::engine::guarded(|| canonical_verdict(&cfgs[i], lazy)) { Ok(r) => r, Err(p) => Ok(Some(format!("panic: {}", p))) }, lazy))
+            .map(|(i, r, lazy)| (i * 2 + lazy as usize, r))
+            .collect()
     };
     let lim = Limits { max_states: 1_000_000, keep_final_traces: 2, keep_state_traces: 1, check_coreach: true, probe_every: 8, ..Default::default() };
     let mut rep = run_exchanges(cfgs, &lim, false, |c| c.to_json());
     let fs = rep.extra.get("final_states").and_then(|v| v.as_u64()).unwrap_or(0);
     rep.guard("final states reached", fs > 0);
     lost_boundary_sweep(&mut rep);
+    {
+        use rayon::prelude::*;
+        let cells = status_cells();
+        let res: Vec<(usize, Result<Option<String>, String>)> = cells.par_iter().enumerate().map(|(i, c)| (i, match crate::engine::guarded(|| canonical_verdict(c, false)) { Ok(r) => r, Err(p) => Ok(Some(format!("panic: {}", p))) })).collect();
+        rep.extra("status_cells", serde_json::json!(cells.len()));
+        for (i, r) in res {
+            rep.evaluations += 1;
+            let m = &cells[i].server.last().unwrap().msg;
+            let desc = format!("GET answered by status {} with fields {:?}", m.status, m.fields.iter().map(|f| format!("{}: {}", f.0, String::from_utf8_lossy(&f.1))).collect::<Vec<_>>());
+            match r {
+                Ok(None) => {}
+                Ok(Some(w)) => rep.violation(crate::engine::Violation { key: if w.starts_with("panic:") { format!("C10:canonical:{}", w.split(" at ").last().unwrap_or("panic")) } else { "C10:verdict:status-is-no-close-condition".into() }, ord: 70_000_000 + i as u64, what: format!("{} [{}]", w, desc), replay: serde_json::json!({"kind": "status-cell", "cfg_index": i}) }),
+                Err(e) => rep.violation(crate::engine::Violation { key: "C10:harness:canonical".into(), ord: 70_000_000 + i as u64, what: format!("{} [{}]", e, desc), replay: serde_json::json!({"kind": "status-cell", "cfg_index": i}) }),
+            }
+        }
+    }
     for (i, r) in canon {
         rep.evaluations += 1;
         match r {
             Ok(None) => {}
-            Ok(Some(w)) => rep.violation(crate::engine::Violation { key: if w.starts_with("panic:") { format!("C10:canonical:{}", w.split(" at ").last().unwrap_or("panic")) } else { "C10:verdict:canonical-schedule".into() }, ord: 60_000_000 + i as u64, what: format!("{} [cell #{}]", w, i), replay: serde_json::json!({"kind": "canonical", "cfg_index": i}) }),
+            Ok(Some(w)) => rep.violation(crate::engine::Violation { key: if w.starts_with("panic:") { format!("C10:canonical:{}", w.split(" at ").last().unwrap_or("panic")) } else { "C10:verdict:canonical-schedule".into() }, ord: 60_000_000 + i as u64, what: format!("{} [cell #{}]", w, i / 2), replay: serde_json::json!({"kind": "canonical", "cfg_index": i / 2, "lazy": i % 2 == 1}) }),
             // the cell could not be driven to its end along the canonical schedule: not this property's failure
-            Err(e) => rep.violation(crate::engine::Violation { key: "C10:harness:canonical".into(), ord: 60_000_000 + i as u64, what: format!("{} [cell #{}]", e, i), replay: serde_json::json!({"kind": "canonical", "cfg_index": i}) }),
+            Err(e) => rep.violation(crate::engine::Violation { key: "C10:harness:canonical".into(), ord: 60_000_000 + i as u64, what: format!("{} [cell #{}]", e, i / 2), replay: serde_json::json!({"kind": "canonical", "cfg_index": i / 2, "lazy": i % 2 == 1}) }),
         }
     }
     rep
 }
 
 pub fn replay(v: &Value) -> Result<Option<String>, String> {
+    if v["kind"].as_str() == Some("status-cell") {
+        let cells = status_cells();
+        let i = v["cfg_index"].as_u64().ok_or("cfg_index")? as usize;
+        return canonical_verdict(cells.get(i).ok_or("cfg_index out of range")?, false);
+    }
     if v["kind"].as_str() == Some("canonical") {
         let tier = if v["tier"].as_str() == Some("thorough") { Tier::Thorough } else { Tier::Quick };
         let cfgs = build(tier);
         let i = v["cfg_index"].as_u64().ok_or("cfg_index")? as usize;
-        return match canonical_verdict(cfgs.get(i).ok_or("cfg_index out of range")?) {
+        return match canonical_verdict(cfgs.get(i).ok_or("cfg_index out of range")?, v["lazy"].as_bool().unwrap_or(false)) {
             Ok(x) => Ok(x),
             Err(e) => Err(e),
         };
